@@ -221,9 +221,9 @@ def run(tier):
         kernels.run_basic(chk, 'C01.kern', prog, cfgname, ('solve', 'bmod'), floor_scratch=4 if cfgname != 'cblas' else 20)
         kernels.run_factor(chk, 'C01.kern', prog, cfgname)
         from ..rules import r12_supernodal
-        chk.clause('C01.kern.symbolic', 'symbolic execution of the supernodal update kernels: every access to the supernode block is the entry the algebra needs')
+        chk.clause('C01.kern.index', 'abstract interpretation of the supernodal update kernels in a polynomial index domain: every access to the supernode block is the entry the algebra needs')
         for _p in 'ds':
-            r12_supernodal.run(chk, 'C01.kern.symbolic', prog, _p, cfgname)
+            r12_supernodal.run(chk, 'C01.kern.index', prog, _p, cfgname)
         chk.clause('C01.kern.copy', 'growth of factor storage carries the old contents over')
         expand.copy_helper_rule(chk, 'C01.kern.copy', prog, cfgname)
         if n1 < 4 * 24 or n2 < 4 * 3:
